@@ -73,8 +73,31 @@ func VerifC11Cursors() {
 	model := map[string]int64{}
 	steps := vParam("steps", 4)
 	ctx := context.Background()
+	lagging := false
+	kinds := 7
+	if vParam("leaderlag", 1) == 1 {
+		kinds = 8
+	}
 	for i := 0; i < steps; i++ {
-		switch vChoose(7) {
+		if lagging && vChoose(2) == 1 {
+			// the new follower's next replication request arrives: the new
+			// leader's high watermark catches up with what was committed
+			p.log.SetHighWatermark(p.log.NewestOffset())
+			lagging = false
+		}
+		switch vChoose(kinds) {
+		case 7: // the cursors partition changes leader. The new leader was in
+			// sync (same log), but the high watermark it learned as a follower
+			// may be one message behind what the old leader had committed and
+			// acknowledged; it catches up with the next replication request.
+			if p.log.NewestOffset() < 0 || p.log.HighWatermark() != p.log.NewestOffset() {
+				return
+			}
+			p.log.OverrideHighWatermark(p.log.NewestOffset() - 1)
+			s.cursors.BecomePartitionLeader()
+			lagging = true
+			vTag("leader-change-hw-lag")
+			vCover("leader-change")
 		case 6: // a cleaner interval passes: the log's own cleaner loop rolls an old active segment or compacts
 			vAdvance(time.Minute + time.Second)
 			vCover("cleaner-tick")
@@ -120,6 +143,9 @@ func VerifC11Cursors() {
 		vYield()
 	}
 	// finally every cursor is fetched, cache bypassed
+	if lagging {
+		p.log.SetHighWatermark(p.log.NewestOffset())
+	}
 	s.cursors.BecomePartitionLeader()
 	for _, id := range ids {
 		got, stt := s.cursors.GetCursor(ctx, "foo", id, 0)
